@@ -60,6 +60,9 @@ def run_ops(pname, ops):
                             vals = [describe(f.exception())]
                         elif k[0] == 'many':
                             vals = [describe(v) for v in f.result()]
+                        elif isinstance(f.result(), BaseException) and not isinstance(f.result(), jsonrpc.RPCError):
+                            # an exception object handed over as if it were the peer's result
+                            vals = [['returned-exception', type(f.result()).__name__]]
                         else:
                             vals = [describe(f.result())]
                         o = {'completed': [k[0], list(k[1]) if k[0] == 'many' else k[1]], 'vals': vals, 'n_newly': len(newly)}
@@ -76,7 +79,7 @@ def run_ops(pname, ops):
                 elif kind == 'abandon':
                     # the caller stops waiting (e.g. its sent_request_timeout expired): the future is cancelled,
                     # the entry stays in the table until a response arrives
-                    ks = [k for k in futures if k[0] == 'one']
+                    ks = [k for k in futures if k[0] == ('many' if len(op) > 2 and op[2] else 'one')]
                     if op[1] < len(ks):
                         futures[ks[op[1]]].cancel()
                     o = {}
